@@ -1,5 +1,6 @@
 import FimVerif.Proofs.Lemmas.C03Class
 import FimVerif.Proofs.Lemmas.C03Small
+import FimVerif.Proofs.Lemmas.C03Gateway
 import FimVerif.Generated.Fields
 /-!
 # C03 — attribute value codecs are lossless, canonical and never mutate their input
@@ -394,5 +395,75 @@ theorem ttuple_int_counterexample :
 theorem tuple_types_clean :
     (Gen.Fields.tupleTypes.all fun p => p.2.all fun t =>
       !t.toList.contains ':' && (t.toList.head?.all fun c => !wsGen c)) = true ∧ wsGen ':' = false := by decide
+
+/-! ### Gateway -/
+
+open Gen.Fields in
+theorem gw_decode_own (valid) (a b : String) (l : Fields) (hl : WellTyped labels valid l)
+    (ha : a ∈ names labels) (hb : b ∈ names labels) (hab : a ≠ b) (ham : a ≠ "mac") (hbm : b ≠ "mac")
+    (hsa : isSet (l a) = true) (hsb : isSet (l b) = true) :
+    decode labels valid (encode labels (gwPick a b l)) = .ok (some (gwPick a b l)) := by
+  have hw := gwPick_wellTyped valid a b l hl ha hb hsa hsb
+  have hr := labels_lossless valid _ hw
+  cases he : encode labels (gwPick a b l) with
+  | none =>
+    have := hr.1 he
+    have hv := (gwPick_values a b l hab ham hbm (by decide)).1
+    rw [this] at hv
+    have hd : defaults labels a = .null := by
+      obtain ⟨f, hf, rfl⟩ := List.mem_map.1 ha
+      rw [show defaults labels f.name = f.dflt from dfltOf_field labels (by decide) f hf]
+      exact (by decide : ∀ f ∈ labels.fields, f.dflt = JVal.null) f hf
+    rw [← hv, hd] at hsa; simp [isSet, isNull] at hsa
+  | some j => exact hr.2 j he
+
+open Gen.Fields in
+/-- **Gateway round trip.**  Whatever `Gateway(lab)` builds from a well-typed `Labels` value reads back from its
+own `to_json` as the same gateway (`from_json` = `Labels.from_json` followed by the constructor's selection). -/
+theorem gateway_roundtrip (valid) (l g : Fields) (hl : WellTyped labels valid l)
+    (hg : gatewayNew labels valid (some l) = .ok (some g)) :
+    gatewayDecode labels valid (gatewayEncode labels (some g)) = .ok (some g) := by
+  have hdm : defaults labels "mac" = .null := by decide
+  simp only [gatewayNew] at hg
+  by_cases h4 : (isSet (l "ipv4_subnet") && isSet (l "ipv4")) = true
+  · have h4' := Bool.and_eq_true_iff.1 h4
+    simp only [h4, if_true] at hg
+    rw [gatewayKeep valid "ipv4_subnet" "ipv4" l hl (by decide) (by decide) h4'.1 h4'.2] at hg
+    injection hg with hg; injection hg with hg; subst hg
+    have hw := gwPick_wellTyped valid "ipv4_subnet" "ipv4" l hl (by decide) (by decide) h4'.1 h4'.2
+    obtain ⟨v1, v2, _, _, _⟩ := gwPick_values "ipv4_subnet" "ipv4" l (by decide) (by decide) (by decide) hdm
+    simp only [gatewayDecode, gatewayEncode,
+      gw_decode_own valid "ipv4_subnet" "ipv4" l hl (by decide) (by decide) (by decide) (by decide) (by decide) h4'.1 h4'.2]
+    have c4 : (isSet (gwPick "ipv4_subnet" "ipv4" l "ipv4_subnet") && isSet (gwPick "ipv4_subnet" "ipv4" l "ipv4")) = true := by
+      rw [v1, v2]; exact h4
+    simp only [gatewayNew, c4, if_true]
+    rw [gatewayKeep valid "ipv4_subnet" "ipv4" _ hw (by decide) (by decide) (by rw [v1]; exact h4'.1) (by rw [v2]; exact h4'.2),
+      gwPick_idem _ _ _ (by decide) (by decide) (by decide) hdm]
+  · simp only [h4] at hg
+    by_cases h6 : (isSet (l "ipv6_subnet") && isSet (l "ipv6")) = true
+    · have h6' := Bool.and_eq_true_iff.1 h6
+      simp only [h6, if_true, Bool.false_eq_true, if_false] at hg
+      rw [gatewayKeep valid "ipv6_subnet" "ipv6" l hl (by decide) (by decide) h6'.1 h6'.2] at hg
+      injection hg with hg; injection hg with hg; subst hg
+      have hw := gwPick_wellTyped valid "ipv6_subnet" "ipv6" l hl (by decide) (by decide) h6'.1 h6'.2
+      obtain ⟨v1, v2, _, _, v5⟩ := gwPick_values "ipv6_subnet" "ipv6" l (by decide) (by decide) (by decide) hdm
+      simp only [gatewayDecode, gatewayEncode,
+        gw_decode_own valid "ipv6_subnet" "ipv6" l hl (by decide) (by decide) (by decide) (by decide) (by decide) h6'.1 h6'.2]
+      have n4 : (isSet (gwPick "ipv6_subnet" "ipv6" l "ipv4_subnet") && isSet (gwPick "ipv6_subnet" "ipv6" l "ipv4")) = false := by
+        rw [v5 "ipv4_subnet" (by decide) (by decide) (by decide)]
+        have : defaults labels "ipv4_subnet" = .null := by decide
+        simp [this, isSet, isNull]
+      have c6 : (isSet (gwPick "ipv6_subnet" "ipv6" l "ipv6_subnet") && isSet (gwPick "ipv6_subnet" "ipv6" l "ipv6")) = true := by
+        rw [v1, v2]; exact h6
+      simp only [gatewayNew, n4, c6, if_true, Bool.false_eq_true, if_false]
+      rw [gatewayKeep valid "ipv6_subnet" "ipv6" _ hw (by decide) (by decide) (by rw [v1]; exact h6'.1) (by rw [v2]; exact h6'.2),
+        gwPick_idem _ _ _ (by decide) (by decide) (by decide) hdm]
+    · simp [h6, gwFinish] at hg
+
+open Gen.Fields in
+/-- an unset gateway is encoded as empty and read back as absent -/
+theorem gateway_unset : gatewayEncode labels none = none ∧ ∀ valid, gatewayDecode labels valid none = .ok none := by
+  refine ⟨rfl, fun valid => ?_⟩
+  simp [gatewayDecode, decode, gatewayNew]
 
 end FimVerif.C03
